@@ -939,7 +939,25 @@ def map_pair_values(rng, n):
            ['set_pv:a:t:x', 'set_pv:b:t:y', 'set_pv:a:t:w', 'get:a', 'get:b', 'fork', 'set_pv:b:t:v', 'get:b', 'get_values', 'swap', 'get_values'],
            ['set:a:x', 'set_pv:a:x:q', 'get:a', 'set_pv:a:x:r', 'get:a', 'set:a:x', 'get:a', 'remove:a', 'get:a', 'count'],
            ['set_pv:c:m:p', 'set_pv:a:m:p', 'set_pv:b:m:p', 'set_pv:a:m:s', 'mutv:u', 'get:a', 'set_pv:c:m:t', 'delv', 'get:c', 'iterate']]
+    # keys of class objpair with an explicit value (set_pk): the pair is the key and compares as its first member
+    out += [['set_pk:a:v', 'get:a', 'set_pk:a:w', 'get:a', 'get_pairs', 'has_value:w', 'has_value:kk', 'count'],
+            ['set_pk:b:x', 'set_pk:b:y', 'get:b', 'set_pk:a:u', 'set_pk:a:t', 'get:a', 'get_keys', 'get_values', 'remove:a', 'remove:b', 'count'],
+            ['set_pk:c:p', 'set_pk:a:q', 'set_pk:b:r', 'fork', 'set_pk:b:s', 'iterate', 'swap', 'iterate', 'remove:c', 'get_pairs']]
     keys = ['a', 'b', 'c', 'd', 'k']
+    for _ in range(n // 3):
+        ops = []
+        for _ in range(rng.randint(3, 12)):
+            r = rng.random()
+            k = rng.choice(keys)
+            if r < 0.4:
+                ops.append('set_pk:%s:%s' % (k, rng.choice(['p', 'q', 'r', 'w'])))
+            elif r < 0.75:      # all keys of such a map are pairs: str and objpair keys do not order consistently among each other
+                ops.append('get:' + k)
+            elif r < 0.85:
+                ops.append('remove:' + k)
+            else:
+                ops.append(rng.choice(['get_values', 'get_keys', 'get_pairs', 'iterate', 'count', 'has_value:p', 'has_key:' + k]))
+        out.append(ops + ['get_pairs', 'count'])
     for _ in range(n):
         ops = []
         for _ in range(rng.randint(3, 14)):
